@@ -281,11 +281,11 @@ var bigCheck = &core.Check{Name: "c01/big", Fn: func(c *core.Ctx) error {
 	n, shape := c.Intn("n", 1<<20), c.Intn("shape", 4)
 	c.Note("cells", n)
 	c.Note("shape", shape)
+	if shape != 2 && n > 1025 {
+		return nil // only the wide tree stays below the depth limit of 1024 at these sizes
+	}
 	nodes := gen.Dag(c, gen.DagOpts{MaxNodes: n, Shape: shape, SmallBit: shape != 1})
 	root := nodes[len(nodes)-1]
-	if shape == 1 && n > 1025 {
-		return nil
-	}
 	shared, err := gen.ToTongo(root, true, 1<<21)
 	if err != nil {
 		return err
